@@ -174,6 +174,24 @@ func runCase(st map[string]interface{}) hx.Event {
 type world struct {
 	f *wfake1.Fake
 	w *writer.ChannelWriter
+	// dbmap: plan parameter - every writer gets the whole-database name mapping <source db>.* -> <dbmap><source db>.*;
+	// the downstream then holds the objects under the mapped database, the writer's tables stay keyed by source names
+	dbmap string
+}
+
+func (wd *world) tdb(db string) string {
+	if wd.dbmap == "" || db != DB { // only the named database is mapped; "default" stays where it is
+		return db
+	}
+	return wd.dbmap + db
+}
+
+func (wd *world) newWriter(tabs map[string]map[string]uint64) *writer.ChannelWriter {
+	w := newWriter(wd.f, tabs)
+	if wd.dbmap != "" {
+		w.UpdateNameMappings(map[string]string{DB + ".*": wd.tdb(DB) + ".*"})
+	}
+	return w
 }
 
 func seedTables(seed []map[string]interface{}) map[string]map[string]uint64 {
@@ -222,7 +240,7 @@ func (wd *world) deliver(st map[string]interface{}) hx.Event {
 	fail, inflight, t2 := hx.B(st, "fail"), hx.S(st, "inflight"), uint64(hx.I(st, "t2"))
 	f := wd.f
 	f.CurT = int64(t)
-	pdb, pcoll, ppart := born(f, db, coll, part)
+	pdb, pcoll, ppart := born(f, wd.tdb(db), coll, part)
 	own := ownAPI[kind]
 	f.FailAPI = map[string]bool{}
 	if fail {
@@ -290,16 +308,16 @@ func (wd *world) deliver(st map[string]interface{}) hx.Event {
 
 func run(p *hx.Plan) []hx.Event {
 	evs := []hx.Event{}
-	wd := &world{f: wfake1.New(true)}
+	wd := &world{f: wfake1.New(true), dbmap: hx.S(p.Params, "dbmap")}
 	wd.f.RouteByBody = true
-	wd.w = newWriter(wd.f, emptyTables())
+	wd.w = wd.newWriter(emptyTables())
 	for _, st := range p.Steps {
 		switch hx.S(st, "op") {
 		case "case":
 			evs = append(evs, runCase(st))
 		case "restart":
 			seed := hx.ML(st, "seed")
-			wd.w = newWriter(wd.f, seedTables(seed))
+			wd.w = wd.newWriter(seedTables(seed))
 			out := []map[string]interface{}{}
 			for _, s := range seed {
 				out = append(out, map[string]interface{}{"lvl": hx.S(s, "lvl"), "db": hx.S(s, "db"), "coll": hx.S(s, "coll"),
